@@ -5,6 +5,7 @@ import (
 	"go/constant"
 	"go/token"
 	"go/types"
+	"sort"
 	"strings"
 
 	"golang.org/x/tools/go/ssa"
@@ -25,7 +26,9 @@ func init() {
 		Rules: []RuleDef{
 			{ID: "R17a", Floor: 4, Doc: "sink provenance: every FS mutation gets a path from resolvePath (success outcome) or the resolved output directory", Run: ruleR17a},
 			{ID: "R17b", Floor: 1 + 3, Doc: "sanitiser integrity and well-formed arguments at its call sites", Run: ruleR17b},
+			{ID: "R17d", Floor: 1, Doc: "extraction is sequential: no goroutine is started in the extraction scope, so nothing the extractor itself creates can appear between a path's resolvePath check and its use", Run: ruleR17d},
 			{ID: "R17c", Floor: 1, Doc: "symlink-following sinks need a final-component guard (Lstat) in the sanitiser and no symlink just created at that path", Run: ruleR17c},
+			{ID: "R17e", Floor: 1, Doc: "the extractor never removes or replaces an existing path (= R18f)", Run: ruleR18f},
 		},
 	})
 }
@@ -521,4 +524,73 @@ func ruleR17c(c *Ctx, r *Report) {
 			r.Check(bad == "", key, c.Pos(in.Pos()), "path from a sanitiser that refuses a symlink as final component; no link created at it before", bad)
 		})
 	}
+}
+
+// ruleR17d: resolvePath is a check-then-use scheme; it is only sound when entries are handled one after another.
+func ruleR17d(c *Ctx, r *Report) {
+	scope, err := extractionScope(c)
+	if err != nil {
+		r.InfraFail("%v", err)
+		return
+	}
+	var bad []string
+	for _, fn := range scope {
+		eachInstr(fn, func(in ssa.Instruction) {
+			g, ok := in.(*ssa.Go)
+			if !ok {
+				return
+			}
+			// only goroutines that can reach the sanitiser or a file-system sink matter
+			var tgt []*ssa.Function
+			if mc, isMC := g.Call.Value.(*ssa.MakeClosure); isMC {
+				tgt = append(tgt, mc.Fn.(*ssa.Function))
+			} else if sc := g.Call.StaticCallee(); sc != nil {
+				tgt = append(tgt, sc)
+			} else {
+				tgt = append(tgt, c.Callees(g)...)
+			}
+			seen := map[*ssa.Function]bool{}
+			touches := false
+			var visit func(f *ssa.Function)
+			visit = func(f *ssa.Function) {
+				if f == nil || seen[f] || f.Blocks == nil {
+					return
+				}
+				seen[f] = true
+				for _, a := range f.AnonFuncs {
+					visit(a)
+				}
+				eachInstr(f, func(in ssa.Instruction) {
+					ci, ok := in.(ssa.CallInstruction)
+					if !ok {
+						return
+					}
+					cf := calleeFunc(ci.Common())
+					if funcIs(cf, pkgCmdLib, "", "resolvePath") {
+						touches = true
+					}
+					if cf != nil && cf.Pkg() != nil && cf.Pkg().Path() == "os" {
+						if _, isSink := fsSinks[cf.Name()]; isSink {
+							touches = true
+						}
+					}
+					if sc := ci.Common().StaticCallee(); sc != nil {
+						visit(sc)
+					}
+					for _, callee := range c.Callees(ci) {
+						visit(callee)
+					}
+				})
+			}
+			for _, t := range tgt {
+				visit(t)
+			}
+			if touches {
+				bad = append(bad, fmt.Sprintf("%s starts a goroutine at %s that reaches resolvePath or a file-system mutation", fnKey(fn), c.Pos(g.Pos())))
+			}
+		})
+	}
+	sort.Strings(bad)
+	r.Check(len(bad) == 0, "sequential-extraction@cmd/car/lib", "-", fmt.Sprintf("%d functions in the extraction scope, none starts a goroutine that reaches resolvePath or a file-system mutation", len(scope)),
+		strings.Join(bad, "; ")+": two entries that map to the same path can interleave between the leaf check of resolvePath and the create/symlink that follows it (a symlink planted by one entry is followed by the other)")
 }
